@@ -65,7 +65,7 @@ class World:
         self.nontrivial = False
         self.labels = set()
         self.free_ids = []       # ids of removed systems, reusable by a *new* object
-        self.graveyard = []      # (token, timestep of removal): the very object may be registered again in a LATER timestep
+        self.graveyard = {}      # token -> timestep of its LAST removal: the very object may be registered again in a LATER timestep
         self.eq_systems = bool(case.get("eq"))
         self.win = {}            # token -> (start, frequency): most systems are always on, some have a sparse window
         wins = list(case.get("windows") or [])
@@ -104,7 +104,7 @@ class World:
     def unregister(self, tok):
         self.model.systems.remove_system(self.all[tok].id)
         self.free_ids.append(self.all[tok].id)
-        self.graveyard.append((tok, self.model.systems.timestep))
+        self.graveyard[tok] = self.model.systems.timestep
         del self.live[tok]
         self.events.append(("removed", tok))
 
@@ -148,7 +148,7 @@ class World:
                 self.labels.add(f"add-{rel}")
                 if rel != "lower" and mypos is not None and mypos < len(order) - 1:
                     self.nontrivial = True
-                back = [tk for tk, when in self.graveyard if when < t and tk not in self.live and self.model.systems[self.all[tk].id] is None]
+                back = [tk for tk, when in sorted(self.graveyard.items()) if when < t and tk not in self.live and self.model.systems[self.all[tk].id] is None]
                 if act.get("same") and back:
                     # the very object that was removed in an EARLIER timestep is registered again (it has not run in this one)
                     tk = back[int(act.get("prio", 0)) % len(back)]
